@@ -424,6 +424,13 @@ class Parser:
             return True
 
         if ttype == "left_cbracket":
+            condition = (
+                self.__curcommand.get_type() == "control"
+                and self.__curcommand.accept_children
+            )
+            if not condition:
+                # only control commands accepting children can open a block
+                return False
             self.__push_expected_bracket("right_cbracket", b"}")
             self.__cstate = None
             return True
@@ -431,6 +438,13 @@ class Parser:
         if ttype == "semicolon":
             self.__cstate = None
             if not self.__check_command_completion(testsemicolon=False):
+                return False
+            condition = (
+                self.__curcommand.get_type() == "test"
+                or self.__curcommand.accept_children
+            )
+            if condition:
+                # a block (or the end of a test) is expected here
                 return False
             self.__curcommand.complete_cb()
             self.__up()
